@@ -1,6 +1,7 @@
 import IpaVerif.Model.Util
 import IpaVerif.Model.Sharing
 import IpaVerif.Model.Circuits
+import IpaVerif.Model.Conv
 import IpaVerif.Generated.PrimeFields
 import IpaVerif.Generated.C07Consts
 /-! Line-protocol handlers for property C07 (model side) and the spec-side oracle. Import-free. -/
@@ -131,7 +132,20 @@ def handle (toks : List String) : Option String :=
       let bits ← bits.toNat?
       let xs ← parseNatList xs
       if bits + IpaVerif.Generated.C07.convSlack ≥ IpaVerif.Generated.C07.convBits then pure "panic:assertion failed" else
-      pure s!"{showNatList (xs.map fun x => (x % 2 ^ bits) % ell)} ok").getD "bad-request"
+      -- run the executable model of `convert_to_fp25519` lane by lane, with pseudo-random PRSS outputs, input
+      -- sharings and multiplication masks derived from the lane (theorem `conv_value`: the result does not depend on them)
+      let B := IpaVerif.Generated.C07.convBits
+      let rs : List IpaVerif.Conv.ConvResult := (List.range xs.length).map fun i =>
+        let x := xs.getD i 0 % 2 ^ bits
+        let rbits (k : Nat) : List Bool := (List.range B).map fun j => prg (7 * i + k + x % 1000) j 2 == 1
+        let ρ : Path → Masks Bool := fun q =>
+          let h := q.foldl (fun a b => (a * 31 + b + 1) % 1000003) (i + 1)
+          ⟨prg h 1 2 == 1, prg h 2 2 == 1, prg h 3 2 == 1⟩
+        let xsh : List (World Bool) := (bitsOf bits x).zipIdx.map fun (b, j) =>
+          share boolAlg b (prg (i + 11) (2 * j) 2 == 1) (prg (i + 13) (2 * j + 1) 2 == 1)
+        IpaVerif.Conv.convert ell B ρ [] (rbits 1) (rbits 2) xsh
+      let okAll := rs.all fun (R : IpaVerif.Conv.ConvResult) => consistentB R.out && R.malOk && (R.y1 == R.y2)
+      pure s!"{showNatList (rs.map fun (R : IpaVerif.Conv.ConvResult) => reconstruct (modAlg ell) R.out)} {flagStr okAll}").getD "bad-request"
   | ["c07.vmul", _mode, _w, xs, ys] => some <| (do
       pure (vecOp "vmul" 1 1 (← parseNatList xs) (← parseNatList ys))).getD "bad-request"
   | [op, _mode, _w, n, m, xs, ys] =>
